@@ -268,8 +268,13 @@ def main(rep, tier, only):
         ok = isinstance(t, tuple) and t[0] == "cond" and T.show(t[1]).replace(" ", "") in ("(r_a1==std::endian::native)", "(std::endian::native==r_a1)") \
             and T.show(t[2]) == "r_a0" and T.show(t[3]) == "swap(r_a0)"
         (rep.ok if ok else rep.fail)("CONV", "endianness::convert", F.primary_site(fn), F.describe(fn), **({"how": "native ? id : swap"} if ok else {"why": "convert is %s" % (T.show(t) if t else "?")}))
-    fn = first(db, "fcppt::endianness::swap")
-    if fn is not None:
+    seen_swap = set()
+    for fn in db.fns("fcppt::endianness::swap"):
+        # every instantiation: a size-specific fast path (`if constexpr (sizeof(Type) == 2)`) exists in some of them only
+        tkey = tuple(fn.get("targs") or [])
+        if tkey in seen_swap:
+            continue
+        seen_swap.add(tkey)
         u = fn["_unit"]
         calls = [(n, q) for (n, d, q) in L.calls_in(u, fn.get("body")) if q == "fcppt::endianness::reverse_mem"]
         ok = False
@@ -282,7 +287,7 @@ def main(rep, tier, only):
             rets = [T.show(T.norm(u, r["e"])) for r in F.walk(fn.get("body")) if r.get("k") == "return"]
             ok = "r_a0" in a0 and sz and u.ty(sz[0].get("arg_t")) == ty and rets == ["r_a0"] and fn["params"][0]["ref"] == "val"
             why = "swap reverses %s with length sizeof(%s) and returns %s" % (a0, u.ty(sz[0].get("arg_t")) if sz else "?", rets)
-        (rep.ok if ok else rep.fail)("CONV", "endianness::swap", F.primary_site(fn), F.describe(fn), **({"how": "reverse_mem(&copy, sizeof(Type))"} if ok else {"why": why}))
+        (rep.ok if ok else rep.fail)("CONV", "endianness::swap<%s>" % ",".join(tkey), F.primary_site(fn), F.describe(fn), **({"how": "reverse_mem(&copy, sizeof(Type))"} if ok else {"why": why}))
     fn = first(db, "fcppt::endianness::reverse_mem")
     if fn is None:
         rep.broken("C15: reverse_mem not analysed (library unit missing)")
@@ -528,6 +533,81 @@ def main(rep, tier, only):
                                      **({"how": "streams the whole name returned by to_string"} if ok else
                                         {"why": "output streams %s: a raw data() pointer drops the view's length (names need not be NUL-terminated), so output and input no longer agree" % t}))
         break
+    # ---------------- CVT (callers): narrow_locale / widen_locale hand the WHOLE string to impl::codecvt with the caller's locale and
+    # the matching direction; every value they return comes from that call (no shortcut that bypasses the facet)
+    for nm, direction in (("fcppt::narrow_locale", "out"), ("fcppt::widen_locale", "in")):
+        for fn in db.fns(nm)[:1]:
+            u = fn["_unit"]
+            why = None
+            rets = [r for r in F.walk(fn.get("body"), into_lambdas=True) if r.get("k") == "return" and r.get("e") is not None
+                    and F.top_function(fn) is fn]
+            top_rets = [r for r in F.walk(fn.get("body"), into_lambdas=False) if r.get("k") == "return" and r.get("e") is not None]
+            if not top_rets:
+                why = "no value is returned"
+            is_cvt = lambda m: m.get("k") == "call" and (T.callee_qn(u, m) or "") == "fcppt::impl::codecvt"
+            all_calls = [m for m in F.walk(fn.get("body"), into_lambdas=True) if is_cvt(m)]
+            derived = set()      # locals that hold (something made from) the result of the conversion
+            for v in F.walk(fn.get("body"), into_lambdas=False):
+                if v.get("k") == "var" and v.get("init") is not None and any(is_cvt(m) or (m.get("k") == "ref" and m.get("id") in derived) for m in F.walk(v["init"])):
+                    derived.add(v["id"])
+            if len(all_calls) != 1:
+                why = "impl::codecvt is called %d times, expected exactly once" % len(all_calls)
+            else:
+                a = [T.show(T.snorm(u, fn, x)) for x in all_calls[0].get("args", [])]
+                if len(a) != 3 or a[0] != "r_a0" or a[1] != "r_a1" or a[2].replace(" ", "").split("::")[-1].lstrip("&") != direction:
+                    why = "impl::codecvt is called with (%s), expected (the whole string, the caller's locale, &codecvt_type::%s)" % (", ".join(a), direction)
+            for r in top_rets:
+                if why:
+                    break
+                if not any(is_cvt(m) or (m.get("k") == "ref" and m.get("id") in derived) for m in F.walk(r["e"])):
+                    why = "a value is returned that does not come from impl::codecvt (%s): the conversion facet of the locale is bypassed" % T.show(T.snorm(u, fn, r["e"]))[:120]
+            (rep.fail if why else rep.ok)("CVT", nm.replace("fcppt::", ""), F.primary_site(fn), F.describe(fn)[:140],
+                                          **({"why": why} if why else {"how": "codecvt(string, locale, &codecvt_type::%s)" % direction}))
+    # ---------------- ENUM-IO (input side): a word that was read but is not an enumerator's name (cannot be narrowed, or is unknown)
+    # sets failbit -- on every path of input(), whatever the optional chaining looks like. (When no word can be read the stream
+    # has set failbit itself; setting it again is allowed, not required.)
+    seen = set()
+    for fn in db.fns("fcppt::enum_::input"):
+        ch = (fn.get("targs") or ["?"])[0]
+        if ch in seen:
+            continue
+        seen.add(ch)
+        icfg = sx.Config(inline_prefixes=("fcppt::optional::", "fcppt::cond"), loop_bound=2, ref_writes=True)
+        try:
+            ps = sx.Interp(db, icfg).paths(fn)
+        except sx.Unsupported as e:
+            rep.broken("C15 ENUM: enum_::input outside the interpreted fragment: %s" % e)
+            continue
+        why = None
+        nfail = 0
+        for p_ in ps:
+            if p_.outcome[0] != "return":
+                continue
+            stages = []
+            for d, v in p_.decisions:
+                t = sx.show(d)
+                m = re.match(r"^has_value\(#(\d+):(\w+)\)$", t)
+                if not m:
+                    why = "the result depends on %s, expected only on whether extraction, narrowing and from_string yield a value" % t
+                    break
+                stages.append((m.group(2), v))
+            if why:
+                break
+            read_ok = any(nm == "extract" and v for nm, v in stages)
+            failed_later = [nm for nm, v in stages if nm != "extract" and not v]
+            sets = [e for e in p_.events if e[0].split("<")[0].endswith("::setstate") and len(e[1]) == 2 and sx.show(e[1][0]) == fn["params"][0]["name"]]
+            if read_ok and failed_later:
+                nfail += 1
+                if not sets:
+                    why = "a word is read but %s yields nothing, and failbit is not set: the caller sees a successful extraction with the target unchanged" % failed_later[0]
+                    break
+            if all(v for nm, v in stages) and sets:
+                why = "failbit is set although an enumerator was read"
+                break
+        if not why and nfail < 2:
+            why = "fewer than two failure paths after a successful read (narrowing fails / name unknown)"
+        (rep.fail if why else rep.ok)("ENUM", "enum_::input<%s>|failure" % ch, F.primary_site(fn), F.describe(fn)[:140],
+                                      **({"why": why} if why else {"how": "failbit on every path where a word was read but no enumerator results"}))
     # ---------------- EXTR
     seen = set()
     for fn in db.fns("fcppt::extract_from_string_locale"):
